@@ -44,10 +44,16 @@ FrameOk(r) ==
 
 FrameCutOk(r) == r.rerr # "nil"
 
+\* one streaming reader decoding the headers r.hs one after the other
+SeqOk(r) ==
+    /\ Len(r.decs) = Len(r.hs)
+    /\ \A i \in 1..Len(r.hs) : IsHeader(r.hs[i]) /\ DecOfEncOk(r.decs[i], r.hs[i], Len(Encode(r.hs[i])))
+
 Ok(r) == CASE r.k = "enc" -> EncOk(r)
            [] r.k = "dec" -> DecOk(r)
            [] r.k = "frame" -> FrameOk(r)
            [] r.k = "framecut" -> FrameCutOk(r)
+           [] r.k = "seq" -> SeqOk(r)
            [] OTHER -> FALSE
 
 Bad == {i \in 1..Len(R) : ~Ok(R[i])}
